@@ -10,9 +10,12 @@ Inductive hop :=
 | HRemove (h : N)                     (* Remove (hash) *)
 | HVerify (i : nat)                   (* Verify *)
 | HHas (i : nat)                      (* HasConflicts (pure probe) *)
-| HStale (stale : list N) (bal : list (payer * N)) (fpb : N).   (* RemoveStale with isOK = "not in stale", new Feer answers *)
+| HStale (stale : list N) (bal : list (payer * N)) (fpb : N) (height : N)
+    (* RemoveStale with isOK = "not in stale" and new Feer answers, among them the block height *)
+| HSetResend (threshold : N).         (* SetResendThreshold with a callback recording what is resent *)
 
-Inductive hres := HOk | HErr (e : err) | HBool (b : bool) | HPanic.
+Inductive hres := HOk | HErr (e : err) | HBool (b : bool) | HPanic
+| HResent (l : list N).   (* RemoveStale returned; the callback received these transactions, in this order *)
 
 (* one step: operation, result, GetVerifiedTransactions as ids, universe ids for which ContainsKey holds *)
 Definition hstep := (hop * hres * list N * list N)%type.
@@ -47,22 +50,29 @@ Definition obs_ids (s : pool) : list N := map tid (vtxs s).
 Definition obs_keys (U : list tx) (s : pool) : list N :=
   map tid (filter (fun t => match mget N.eqb (tid t) (vmap s) with Some _ => true | None => false end) U).
 
-Fixpoint replay (c : cfg) (U : list tx) (st : state) (steps : list hstep) : bool :=
+(* replay state: the model's run state (pool, Feer, stamps, threshold) and the current block height *)
+Fixpoint replay (c : cfg) (U : list tx) (rs : rstate) (height : N) (steps : list hstep) : bool :=
   match steps with
   | [] => true
   | (o, r, ids, keys) :: rest =>
-      let '(mr, st') :=
+      let '(mr, resent, rs', height') :=
         match o with
-        | HAdd i => step c st (OAdd (utx U i))
-        | HRemove h => step c st (ORemove h)
-        | HVerify i => step c st (OVerify (utx U i))
-        | HHas i => (RBool (has_conflicts (st_pool st) (utx U i)), st)
-        | HStale stale bal fpb => step c st (OStale (isok_of stale) (bal_of bal) fpb)
+        | HAdd i => let '(x, y) := rstep c rs (RO (OAdd (utx U i)) height) in (fst x, snd x, y, height)
+        | HRemove h => let '(x, y) := rstep c rs (RO (ORemove h) height) in (fst x, snd x, y, height)
+        | HVerify i => let '(x, y) := rstep c rs (RO (OVerify (utx U i)) height) in (fst x, snd x, y, height)
+        | HHas i => (RBool (has_conflicts (st_pool (r_st rs)) (utx U i)), [], rs, height)
+        | HStale stale bal fpb h =>
+            let '(x, y) := rstep c rs (RO (OStale (isok_of stale) (bal_of bal) fpb) h) in (fst x, snd x, y, h)
+        | HSetResend t => let '(x, y) := rstep c rs (RSetResend t) in (fst x, snd x, y, height)
         end in
-      res_eqb mr r &&
+      match r with
+      | HResent l => (match mr with ROk => true | _ => false end) && nlist_eqb (map tid resent) l
+      | _ => res_eqb mr r
+      end &&
       match r with
       | HPanic => true                  (* the pool is unusable afterwards; nothing more was observed *)
-      | _ => nlist_eqb (obs_ids (st_pool st')) ids && nlist_eqb (obs_keys U (st_pool st')) keys && replay c U st' rest
+      | _ => nlist_eqb (obs_ids (st_pool (r_st rs'))) ids && nlist_eqb (obs_keys U (st_pool (r_st rs'))) keys
+             && replay c U rs' height' rest
       end
   end.
 
@@ -136,14 +146,19 @@ Definition add_ok_spec (U : list tx) (capacity : nat) (t : tx) (prev ids : list 
      | _ => false
      end.
 
-Fixpoint spec_steps (U : list tx) (capacity : nat) (bal : payer -> N) (prev pkeys : list N) (steps : list hstep) : bool :=
+(* [height], [stamps] (hash -> height of its last successful Add) and [thr] are what the harness itself set *)
+Fixpoint spec_steps (U : list tx) (capacity : nat) (bal : payer -> N) (prev pkeys : list N)
+         (height : N) (stamps : list (N * N)) (thr : N) (steps : list hstep) : bool :=
   match steps with
   | [] => true
   | (o, r, ids, keys) :: rest =>
       match r with
       | HPanic => false
       | _ =>
-          let bal' := match o with HStale _ b _ => bal_of b | _ => bal end in
+          let bal' := match o with HStale _ b _ _ => bal_of b | _ => bal end in
+          let height' := match o with HStale _ _ _ h => h | _ => height end in
+          let thr' := match o with HSetResend t => t | _ => thr end in
+          let stamps' := match o, r with HAdd i, HOk => mset N.eqb (tid (utx U i)) height stamps | _, _ => stamps end in
           obs_inv U capacity bal' ids keys
           && match o, r with
              | HAdd i, HOk => add_ok_spec U capacity (utx U i) prev ids
@@ -155,10 +170,15 @@ Fixpoint spec_steps (U : list tx) (capacity : nat) (bal : payer -> N) (prev pkey
              | HVerify _, _ => false
              | HHas i, HBool b => nlist_eqb ids prev && nlist_eqb keys pkeys && Bool.eqb b (has_conflicts_spec U prev (utx U i))
              | HHas _, _ => false
-             | HStale stale _ _, HOk => sublistb ids prev && forallb (fun h => negb (mem h stale)) ids
-             | HStale _ _ _, _ => false
+             | HStale stale _ _ h, HResent l =>
+                 sublistb ids prev && forallb (fun x => negb (mem x stale)) ids
+                 (* resent: exactly the kept items whose age is threshold * 2^k, in pool order *)
+                 && nlist_eqb l (filter (fun x => resend_due thr (h - match mget N.eqb x stamps with Some v => v | None => 0 end)) ids)
+             | HStale _ _ _ _, _ => false
+             | HSetResend _, HOk => nlist_eqb ids prev && nlist_eqb keys pkeys
+             | HSetResend _, _ => false
              end
-          && spec_steps U capacity bal' ids keys rest
+          && spec_steps U capacity bal' ids keys height' stamps' thr' rest
       end
   end.
 
@@ -177,9 +197,9 @@ Definition check_case (c : case) : N :=
   match c with
   | CSeq capacity U bal0 steps =>
       if wf_universe 0 U && (length U <? 1000)%nat then
-        let st0 := mkState (new_pool capacity) (bal_of bal0) in
-        let s := spec_steps U capacity (bal_of bal0) [] [] steps in
-        let m := existsb (fun c => replay c U st0 steps) all_cfgs in
+        let st0 := mkR (mkState (new_pool capacity) (bal_of bal0)) [] 0 in
+        let s := spec_steps U capacity (bal_of bal0) [] [] 0 [] 0 steps in
+        let m := existsb (fun c => replay c U st0 0 steps) all_cfgs in
         code_of (m && s) s
       else 3
   end.
